@@ -123,6 +123,9 @@ def run_mc(name, scratch, workers=None, timeout=3600, extra=(), env=None, cfg=No
 
 # ------------------------------------------------------------------ drivers
 
+ZONES = ['America/Santiago', 'America/Havana', 'Asia/Beirut', 'America/Asuncion']
+
+
 def run_driver(harness, name, tier, seed, outdir, shards=1, per=60000, timeout=3600, extra=(), env=None):
     """Runs `harness drive <name>` as `shards` parallel processes; returns summaries."""
     os.makedirs(outdir, exist_ok=True)
@@ -131,7 +134,12 @@ def run_driver(harness, name, tier, seed, outdir, shards=1, per=60000, timeout=3
     for i in range(shards):
         cmd = [harness, 'drive', name, '-tier', tier, '-seed', str(seed), '-out', outdir,
                '-shard', str(i), '-nshards', str(shards), '-per', str(per)] + list(extra)
-        procs.append(subprocess.Popen(cmd, stdout=subprocess.PIPE, stderr=subprocess.PIPE, text=True, env=env))
+        # the process environment is part of the context: odd shards run in a time zone whose daylight
+        # saving time starts at midnight (local midnight does not exist on that day)
+        penv = env
+        if i % 2 == 1:
+            penv = dict(env if env is not None else os.environ, TZ=ZONES[(i // 2) % len(ZONES)])
+        procs.append(subprocess.Popen(cmd, stdout=subprocess.PIPE, stderr=subprocess.PIPE, text=True, env=penv))
     sums = []
     for p in procs:
         try:
@@ -144,7 +152,7 @@ def run_driver(harness, name, tier, seed, outdir, shards=1, per=60000, timeout=3
             intent = os.path.join(outdir, '%s-s%02d.intent.json' % (name, i))
             if os.path.exists(intent) and not err.startswith('HARNESS-ERROR'):
                 # the runtime aborted the process inside a library call whose request was left behind
-                req = json.load(open(intent))
+                req = json.load(open(intent))['events']
                 os.remove(intent)
                 first = [l for l in err.split('\n') if l.startswith(('fatal error', 'runtime:', 'panic:', 'signal'))][:2]
                 sums.append({'crash': True, 'req': req, 'how': '; '.join(first) or 'exit status %d' % p.returncode,
@@ -170,6 +178,16 @@ def run_conc(harness, name, tier, seed, outdir, goroutines=8, limit=20000, per=6
            '-limit', str(limit), '-per', str(per)]
     p = subprocess.run(cmd, capture_output=True, text=True, env=env, timeout=timeout)
     if p.returncode != 0:
+        intents = sorted(glob.glob(os.path.join(outdir, 'conc-%s-g*.intent.json' % name)))
+        if intents and not p.stderr.startswith('HARNESS-ERROR'):
+            # a library call panicked in one goroutine: the process ended, the other goroutines' traces are incomplete
+            req = json.load(open(intents[0]))['events']
+            for f in intents + glob.glob(os.path.join(outdir, 'conc-%s-g*.ndjson' % name)):
+                os.remove(f)
+            first = [l for l in p.stderr.split('\n') if l.startswith(('fatal error', 'runtime:', 'panic:', 'signal'))][:2]
+            log('[conc]  %s: the process died inside a call (%s)' % (name, '; '.join(first)))
+            return [{'crash': True, 'req': req, 'how': '; '.join(first) or 'exit status %d' % p.returncode, 'driver': 'conc ' + name,
+                     'shard': 0, 'events': 0, 'chunks': 0, 'ops': {}}]
         raise HarnessError('concurrent driver %s failed rc=%d:\n%s' % (name, p.returncode, tail(p.stdout + p.stderr)))
     sums = [json.loads(l[len('DRIVER-SUMMARY '):]) for l in p.stdout.split('\n') if l.startswith('DRIVER-SUMMARY ')]
     log('[conc]  %-10s %9d events from %d goroutines of one process, %.1fs'
